@@ -113,3 +113,46 @@ Theorem C19_berlin_eve_of_dst :
   1743314400 * NS - now = 19 * HOUR.
 Proof. exact berlin_eve_of_dst. Qed.
 Print Assumptions C19_berlin_eve_of_dst.
+
+
+(* ------------------------------------------------------------------------------------------------------------
+   The tie to the file as it is today: coq/gen/GenInstant.v is written by tools/gen_instant.py from builder/helper.py
+   on every run (get_timedelta, get_pos_timedelta_secs, get_time, get_instant; statement by statement, fail closed);
+   GenInstantEq.v proves that it computes the model above on the reading [read v] of the Python value v. *)
+From EAS Require Import GenRtDst GenRtInstant GenInstantEq.
+From EASGen Require Import GenInstant.
+
+Theorem C19_generated_recognised : gen_instant_status_v = GenInstantOk.
+Proof. exact gen_instant_recognised. Qed.
+Print Assumptions C19_generated_recognised.
+
+Theorem C19_generated_get_timedelta : forall W v, res_of (g_get_timedelta W v) = get_timedelta (read_dur v).
+Proof. exact gen_get_timedelta. Qed.
+Print Assumptions C19_generated_get_timedelta.
+
+Theorem C19_generated_get_pos_timedelta_secs : forall W v,
+  res_of (g_get_pos_timedelta_secs W v) = get_pos_timedelta_secs (read_dur v).
+Proof. exact gen_get_pos_timedelta_secs. Qed.
+Print Assumptions C19_generated_get_pos_timedelta_secs.
+
+Theorem C19_generated_get_instant : forall W v,
+  pv_wf v -> g_get_instant W v <> OStuck ->
+  res_of (g_get_instant W v) = get_instant (w_tz W) (w_now W) (read v).
+Proof. exact gen_get_instant. Qed.
+Print Assumptions C19_generated_get_instant.
+
+Theorem C19_generated_time_of_day_next : forall W v tod r,
+  wf_tz_b (w_tz W) = true ->
+  dates_forward_b (w_tz W) (reach_lo (w_now W)) (reach_hi (w_now W)) = true ->
+  0 <= tod < DAY -> pv_wf v -> read v = ATime tod ->
+  g_get_instant W v = ORet r ->
+  w_now W <= r <= reach_hi (w_now W) /\
+  local_tod (to_local (w_tz W) r) = tod /\
+  (forall i, w_now W <= i -> local_tod (to_local (w_tz W) i) = tod -> r <= i).
+Proof. exact gen_time_of_day_next. Qed.
+Print Assumptions C19_generated_time_of_day_next.
+
+Theorem C19_generated_berlin_eve_of_dst :
+  g_get_instant {| w_tz := berlin; w_now := 1743246000 * NS |} (VStr None (Some (8 * HOUR))) = ORet (1743314400 * NS).
+Proof. exact gen_berlin_eve_of_dst. Qed.
+Print Assumptions C19_generated_berlin_eve_of_dst.
